@@ -64,6 +64,22 @@ def is_self_field(tr, op, field, depth=0):
     return False
 
 
+def through(tr, leaves, depth=0):
+    """replace `Some(x)` aggregates by the origins of x and `o.unwrap()` / `o.expect(..)` results by the origins of o"""
+    out = set()
+    for l in leaves:
+        if depth < 4 and l.kind == "agg" and l.detail[0] == "adt" and l.detail[2] == "Some":
+            st = tr.b.blocks[l.detail[3]]["s"][l.detail[4]]
+            out |= through(tr, tr.operand(st["rv"]["ops"][0]), depth + 1)
+        elif depth < 4 and l.kind == "call" and l.detail[0].rsplit("::", 1)[-1] in ("unwrap", "expect"):
+            t = tr.b.term(l.detail[2])
+            for x in through(tr, tr.operand(t["args"][0]), depth + 1):
+                out.add(type(x)((x.kind, x.detail, tuple(x.projs) + tuple(l.projs))))
+        else:
+            out.add(l)
+    return out
+
+
 def last_field(projs):
     fs = [p for p in projs if p.startswith(".")]
     return fs[-1] if fs else None
@@ -105,7 +121,8 @@ def vm_arm(vm, crate, variant):
     regions = []
     for sb, listed in variant_switches(vm, crate, "instructions::Instruction"):
         if variant in listed and len(listed) > 8:
-            regions.append(vm.reach_from(listed[variant], removed_blocks=frozenset(heads | {sb})))
+            tgt = listed[variant]
+            regions.append({x for x in vm.reach_from(tgt, removed_blocks=frozenset(heads | {sb})) if vm.dominates(tgt, x)})
     if not regions:
         raise AnchorMissing("interpreter arm for Instruction::%s" % variant)
     return set().union(*regions)
@@ -115,7 +132,8 @@ def node_arm(cn, crate, variant):
     from props.c09 import variant_switches
     for sb, listed in variant_switches(cn, crate, "ast::Node"):
         if variant in listed and len(listed) > 4:
-            return cn.reach_from(listed[variant], removed_blocks=frozenset([sb]))
+            tgt = listed[variant]
+            return {x for x in cn.reach_from(tgt, removed_blocks=frozenset([sb])) if cn.dominates(tgt, x)}
     raise AnchorMissing("compile_node arm for Node::%s" % variant)
 
 
@@ -501,9 +519,9 @@ def check_incl(crate, rep, cfg):
     ws = [(bb, idx, rv) for bb, idx, rv in field_assigns(ri, ".include_parent")]
     ok = len(ws) == 1
     if ok:
-        leaves = tr._rv(ws[0][2], (), set(), 0, ws[0][0], ws[0][1])
+        leaves = through(tr, tr._rv(ws[0][2], (), set(), 0, ws[0][0], ws[0][1]))
         sp = [i for i in range(1, ri.arg_count + 1) if "vm::state::State" in ri.local_ty(i)]
-        ok = bool(leaves) and bool(sp) and all(l.kind == "param" and l.detail == sp[0] for l in leaves)
+        ok = bool(leaves) and bool(sp) and all(l.kind == "param" and l.detail == sp[0] and last_field(l.projs) is None for l in leaves)
     rep.add("C03.INCL", "C03.INCL:render_include:parent-link", ok, ri.where(0), "the child's include_parent is the includer's own State (so the include reads the includer's "
             "current variables)" + ("" if ok else " — VIOLATED"))
     # the context handed to the child: the includer's context
@@ -531,8 +549,8 @@ def check_incl(crate, rep, cfg):
                 for f in fl:
                     if f[0] == "call" and f[1].endswith("::is_empty") and vm.dominates(tgt, bb) and tgt != sb:
                         ct = vm.term(f[4])
-                        flds = {tuple(p for p in l.projs if p.startswith(".")) for l in vtr.operand(ct["args"][0])}
-                        if flds == {(".capture_buffers",)}:
+                        pl = [l for l in vtr.operand(ct["args"][0]) if l.kind == "param"]
+                        if pl and all(last_field(l.projs) == ".capture_buffers" for l in pl):
                             empty_truth = f[3]
         to_output = bool(outl) and all(l.kind == "param" and "Write" in vm.local_ty(l.detail) for l in outl)
         if empty_truth is True and to_output:
@@ -575,7 +593,7 @@ def check_jump(crate, rep, cfg):
     ok = len(jumps) == 1
     if ok:
         bb, idx, st = jumps[0]
-        leaves = ctr.operand(st["rv"]["ops"][0])
+        leaves = through(ctr, ctr.operand(st["rv"]["ops"][0]))
         ok = bool(leaves) and all(l.kind == "call" and leaf_call_is(l, "parsing::compiler::Compiler::get_current_loop") and "as:Loop" in l.projs for l in leaves)
     rep.add("C03.JUMP", "C03.JUMP:compiler:continue-target", ok, cn.where(jumps[0][0]) if jumps else cn.where(0), "`continue` compiles to Jump(start of the loop returned by "
             "get_current_loop())" + ("" if ok else " — VIOLATED"))
